@@ -27,8 +27,6 @@ func runC19(c *vf.Ctx) {
 	defer restore()
 
 	probe := c19DoProbe()
-	c.Set("variant_probed", map[string]bool{"dirSwap": probe.Variant[0], "ecdhJwe": probe.Variant[1],
-		"ecdhDirectDraw": probe.Variant[2], "gcmkwCheck": probe.Variant[3]})
 	c.Set("skipped_algorithms", map[string]bool{"dir": probe.SkipDir, "ECDH-ES": probe.SkipECDH})
 	for _, n := range probe.Notes {
 		c.Note("%s", n)
@@ -54,7 +52,6 @@ func runC19(c *vf.Ctx) {
 		}
 		var cs c19Case
 		if json.Unmarshal(data, &cs) == nil {
-			cs.Variant = probe.Variant
 			runs = append(runs, c19RunImpl(cs))
 			c.Count("corpus")
 		}
@@ -118,6 +115,7 @@ func runC19(c *vf.Ctx) {
 
 	c19LongEpoch(c, d0)
 	c19Goroutines(c, d0)
+	c19SharedInstance(c, d0)
 	d0.Close()
 }
 
@@ -128,8 +126,6 @@ func replayC19(c *vf.Ctx, data json.RawMessage) {
 	}
 	restore := c19Install()
 	defer restore()
-	probe := c19DoProbe()
-	cs.Variant = probe.Variant
 	d, err := vf.StartDriver()
 	if err != nil {
 		return
@@ -489,7 +485,7 @@ func c19Goroutines(c *vf.Ctx, d *vf.Driver) {
 				}
 				return vf.None()
 			}
-			resw, err := d.Call("c19.hist", []vf.Wire{vf.Arr(vf.Bool(false), vf.Bool(false), vf.Bool(false), vf.Bool(false)), vf.Arr(ops...)}, oracle)
+			resw, err := d.Call("c19.hist", []vf.Wire{vf.Arr(ops...)}, oracle)
 			if err != nil || len(resw.Arr) != 2 || len(resw.Arr[0].Arr) != len(cs.Ops) {
 				fail("model run failed", fmt.Sprint(err), "")
 				continue
@@ -512,5 +508,104 @@ func c19Goroutines(c *vf.Ctx, d *vf.Driver) {
 			c.Fail(vf.Violation{Kind: "property", Class: "c19-goroutines", What: "reads not accounted for by issued values", Case: c19Case{},
 				Observed: fmt.Sprintf("%d reads, %d claimed", len(reads), len(claimed)), Required: "equal"})
 		}
+	}
+}
+
+// c19SharedInstance: many goroutines call GenerateIV on ONE shared agcm instance (agcm guards
+// mask and counter with a mutex).  Support only — scheduling is not modelled: within each epoch
+// the IVs must be pairwise distinct, and as a multiset equal to what the sequential model issues
+// for the same number of calls; the stream consumption must be that of the sequential model.
+func c19SharedInstance(c *vf.Ctx, d *vf.Driver) {
+	const N, K, epochs = 16, 100, 3
+	rounds := c.Budget(8, 60)
+	for round := 0; round < rounds; round++ {
+		seed := uint64(0x5a4ed000 + round)
+		e := c19GcmEncs[round%3]
+		c19Rd.reset(seed)
+		a := c19NewGcm(e)
+		cs := c19Case{Seed: seed, Ops: []c19Op{{T: "newGcm", Enc: e}}}
+		var got [][]string
+		fail := func(class, what, obs, req string) {
+			c.Fail(vf.Violation{Kind: "property", Class: class, What: fmt.Sprintf("shared instance, round %d: %s", round, what), Case: c19Case{}, Observed: obs, Required: req})
+		}
+		for ep := 0; ep < epochs; ep++ {
+			if _, err := a.GenerateCEK(); err != nil {
+				fail("c19-shared-instance", "GenerateCEK", err.Error(), "ok")
+				return
+			}
+			cs.Ops = append(cs.Ops, c19Op{T: "gcmCEK", I: 0})
+			ivs := make([][]string, N)
+			var wg sync.WaitGroup
+			for g := 0; g < N; g++ {
+				wg.Add(1)
+				go func(g int) {
+					defer wg.Done()
+					for k := 0; k < K; k++ {
+						iv, err := a.GenerateIV()
+						if err != nil {
+							ivs[g] = append(ivs[g], "error: "+err.Error())
+							continue
+						}
+						ivs[g] = append(ivs[g], string(iv))
+					}
+				}(g)
+			}
+			wg.Wait()
+			var all []string
+			for g := range ivs {
+				all = append(all, ivs[g]...)
+			}
+			sort.Strings(all)
+			for i := range all {
+				if len(all[i]) != 12 {
+					fail("c19-length-gcm-iv", "IV length", fmt.Sprintf("%q", all[i]), "12 bytes")
+					return
+				}
+				if i > 0 && all[i] == all[i-1] {
+					fail("c19-iv-reuse", fmt.Sprintf("epoch %d: the same IV was issued twice to concurrent callers", ep),
+						fmt.Sprintf("%x", all[i]), "pairwise distinct IVs within one epoch")
+					return
+				}
+			}
+			got = append(got, all)
+			for i := 0; i < N*K; i++ {
+				cs.Ops = append(cs.Ops, c19Op{T: "gcmIV", I: 0})
+			}
+		}
+		pos, _ := c19Rd.state()
+		steps, _, err := c19RunModel(d, cs)
+		if err != nil || len(steps) != len(cs.Ops) {
+			fail("c19-driver", "model run", fmt.Sprint(err), "")
+			return
+		}
+		if steps[len(steps)-1].Pos != pos {
+			fail("c19-consumed-shared", "random bytes consumed", fmt.Sprint(pos), fmt.Sprint(steps[len(steps)-1].Pos))
+		}
+		k := 1
+		for ep := 0; ep < epochs; ep++ {
+			k++ // the gcmCEK step
+			var want []string
+			for i := 0; i < N*K; i++ {
+				st := steps[k]
+				k++
+				if st.Tag == "ok" && len(st.Items) == 1 {
+					want = append(want, string(st.Items[0].B))
+				}
+			}
+			sort.Strings(want)
+			if len(want) != len(got[ep]) {
+				fail("c19-shared-instance", "number of IVs", fmt.Sprint(len(got[ep])), fmt.Sprint(len(want)))
+				continue
+			}
+			for i := range want {
+				if want[i] != got[ep][i] {
+					fail("c19-shared-instance", fmt.Sprintf("epoch %d: the multiset of IVs differs from the sequential model's", ep),
+						fmt.Sprintf("%x", got[ep][i]), fmt.Sprintf("%x", want[i]))
+					break
+				}
+			}
+			c.Count("shared-instance:epochs-equal-to-sequential-model")
+		}
+		c.TraceValidated()
 	}
 }
